@@ -228,7 +228,7 @@ Lemma fetch_cases U c F T fg r out n T' : fetch U c F T fg r = (out, n, T') ->
   (out = FOk /\ srcp U r = true /\ incompat c = false /\
      T' = insert U c T (missing U fg (vis_of F T) r) /\ n = length (missing U fg (vis_of F T) r)).
 Proof.
-  unfold fetch. intros H.
+  unfold fetch, transfer. intros H.
   destruct (negb (srcp U r) && (fg || negb (memb r (vis_of F T)))) eqn:E.
   - inversion H; subst. left. split; [discriminate | reflexivity].
   - destruct (srcp U r) eqn:S.
@@ -333,13 +333,13 @@ Proof.
         apply (ancestors_spec _ _ x W). exists r. split; [|exact Hx].
         apply (In_haves U _ r r W). split; [apply reach_refl|]. split; [exact S|exact Hr]. }
   destruct (srcp U r) eqn:S.
-  - split; [apply EM; reflexivity|]. unfold fetch. rewrite S. cbn [negb andb]. rewrite (EM eq_refl). reflexivity.
+  - split; [apply EM; reflexivity|]. unfold fetch, transfer. rewrite S. cbn [negb andb]. rewrite (EM eq_refl). reflexivity.
   - destruct (fetch_cases U c F T fg r FOk n T' H) as [[N _]|[[_ [E [_ D]]]|[_ [S' _]]]]; [congruence| |congruence]; subst T'.
     destruct D as [[_ [Ef Hv]]|[S' _]]; [|congruence]. subst fg.
     assert (E0 : missing U false (vis_of F T) r = []).
     { unfold missing, missing_walk. apply filter_nil. intros x Hx. apply (In_anc U r x W) in Hx.
       apply srcp_ge in S. pose proof (reach_ghost _ _ _ S Hx) as Ex. subst x. apply srcp_ge in S. rewrite S. reflexivity. }
-    split; [exact E0|]. unfold fetch. rewrite S. cbn [negb andb orb].
+    split; [exact E0|]. unfold fetch, transfer. rewrite S. cbn [negb andb orb].
     apply memb_In in Hv. rewrite Hv. cbn [negb]. rewrite E0. reflexivity.
 Qed.
 
@@ -380,6 +380,20 @@ Proof.
     + left. unfold texts_diff. apply filter_In. split; [apply In_inv_texts; exists r; tauto|]. rewrite E. reflexivity.
 Qed.
 
+(* the core of C03_payload_equal: inserting the stream for M into a complete repository that
+   holds the boundary parents of M gives a complete repository *)
+Lemma insert_keeps_full U c T M : wf_univ U = true ->
+  (forall b, In b (boundary U M) -> In b (revs T)) ->
+  full U T -> full U (insert U c T M).
+Proof.
+  intros W HB HF x Hx Sx. rewrite revs_insert in Hx. apply In_union in Hx. destruct Hx as [Hx|Hx].
+  - split; [apply In_invs_insert; tauto|]. intros t Ht. apply In_texts_insert.
+    destruct (sent_or_boundary U c M x t W Hx Ht) as [Hs|[b [Hb Htb]]]; [left; exact Hs|right].
+    apply (HF b (HB b Hb)); [|exact Htb]. apply In_boundary in Hb. tauto.
+  - destruct (HF x Hx Sx) as [H1 H2]. split; [apply In_invs_insert; tauto|].
+    intros t Ht. apply In_texts_insert. right. apply H2. exact Ht.
+Qed.
+
 (* C03_payload_equal: into an unstacked, complete target every copied revision arrives with
    its inventory and every text it references *)
 Theorem fetch_keeps_full U c F T fg r out n T' : wf_univ U = true ->
@@ -390,25 +404,21 @@ Proof.
   intros W H EF G HF.
   assert (Ev : vis_of F T = revs T) by (unfold vis_of; rewrite EF; apply app_nil_r).
   destruct (fetch_cases U c F T fg r out n T' H) as [[_ E]|[[_ [E _]]|[_ [_ [_ [E _]]]]]]; subst T'; try exact HF.
-  rewrite Ev. set (M := missing U fg (revs T) r).
-  intros x Hx Sx. rewrite revs_insert in Hx. apply In_union in Hx. destruct Hx as [Hx|Hx].
-  - split; [apply In_invs_insert; tauto|]. intros t Ht. apply In_texts_insert.
-    destruct (sent_or_boundary U c M x t W Hx Ht) as [Hs|[b [Hb Htb]]]; [left; exact Hs|right].
-    assert (Hbv : In b (revs T)) by (apply (boundary_in_vis U fg (revs T) r b (wf_univ_dag U W) G Hb)).
-    apply (HF b Hbv); [|exact Htb]. apply In_boundary in Hb. tauto.
-  - destruct (HF x Hx Sx) as [H1 H2]. split; [apply In_invs_insert; tauto|].
-    intros t Ht. apply In_texts_insert. right. apply H2. exact Ht.
+  rewrite Ev. apply insert_keeps_full; [exact W| |exact HF].
+  intros b Hb. apply (boundary_in_vis U fg (revs T) r b (wf_univ_dag U W) G Hb).
 Qed.
 
 (* ---- C08 ---------------------------------------------------------------------- *)
 
-Theorem fetch_keeps_complete U c F T fg r out n T' : wf_univ U = true ->
-  fetch U c F T fg r = (out, n, T') -> ext c = true -> closedb U (vis_of F T) = true ->
-  local_complete U T -> local_complete U T'.
+(* the core of C08_fetch_keeps_complete: M are existing revisions the stack does not see, the
+   boundary parents of M are seen, the stack is closed *)
+Lemma insert_keeps_complete U c T M vis : wf_univ U = true -> ext c = true ->
+  closedb U vis = true ->
+  (forall m, In m M -> ~ In m vis) ->
+  (forall b, In b (boundary U M) -> In b vis) ->
+  local_complete U T -> local_complete U (insert U c T M).
 Proof.
-  intros W H X C HL. pose proof (wf_univ_dag U W) as Wd.
-  destruct (fetch_cases U c F T fg r out n T' H) as [[_ E]|[[_ [E _]]|[_ [_ [_ [E _]]]]]]; subst T'; try exact HL.
-  set (M := missing U fg (vis_of F T) r).
+  intros W X C HM HB HL.
   intros x Hx Sx. rewrite revs_insert in Hx. apply In_union in Hx. destruct Hx as [Hx|Hx].
   - split; [apply In_invs_insert; tauto|]. split.
     + intros p Hp Sp. apply In_invs_insert. destruct (memb p M) eqn:Ep; [right; left; apply memb_In; exact Ep|].
@@ -419,13 +429,22 @@ Proof.
       assert (Et : snd t = x).
       { destruct (wf_univ_entry U x t W Ht) as [E|[p [Hp [_ Htp]]]]; [exact E|]. exfalso. apply (Hd p Hp Htp). }
       destruct (sent_or_boundary U c M x t W Hx Ht) as [Hs|[b [Hb Htb]]]; [exact Hs|exfalso].
-      assert (Hbv : In b (vis_of F T)) by (apply (boundary_in_vis U fg _ r b Wd (or_intror C) Hb)).
       pose proof (text_origin U W b t Htb) as R. rewrite Et in R.
-      pose proof (closed_reach U _ C x b R Hbv Sx) as Hxv.
-      apply (missing_not_vis U fg _ r x Wd) in Hx. tauto.
+      apply (HM x Hx). apply (closed_reach U vis C x b R (HB b Hb) Sx).
   - destruct (HL x Hx Sx) as [H1 [H2 H3]]. split; [apply In_invs_insert; tauto|]. split.
     + intros p Hp Sp. apply In_invs_insert. right. right. apply H2; assumption.
     + intros t Ht Hd. apply In_texts_insert. right. apply H3; assumption.
+Qed.
+
+Theorem fetch_keeps_complete U c F T fg r out n T' : wf_univ U = true ->
+  fetch U c F T fg r = (out, n, T') -> ext c = true -> closedb U (vis_of F T) = true ->
+  local_complete U T -> local_complete U T'.
+Proof.
+  intros W H X C HL. pose proof (wf_univ_dag U W) as Wd.
+  destruct (fetch_cases U c F T fg r out n T' H) as [[_ E]|[[_ [E _]]|[_ [_ [_ [E _]]]]]]; subst T'; try exact HL.
+  apply (insert_keeps_complete U c T _ (vis_of F T) W X C); [| |exact HL].
+  - intros m Hm. apply (missing_not_vis U fg _ r m Wd Hm).
+  - intros b Hb. apply (boundary_in_vis U fg _ r b Wd (or_intror C) Hb).
 Qed.
 
 Lemma commit_unfillable_nil F T ps : commit_unfillable F T ps = [] ->
@@ -559,4 +578,82 @@ Proof.
     + apply (In_anc wit_U 5 1); vm_compute; [reflexivity|]. tauto.
     + vm_compute. intuition discriminate.
   - intros Hf. apply full_b_spec in Hf. vm_compute in Hf. discriminate.
+Qed.
+
+(* ---- fetch of everything (no revision given) ----------------------------------------- *)
+
+Lemma In_missing_all U vis a : In a (missing_all U vis) <-> srcp U a = true /\ ~ In a vis.
+Proof.
+  unfold missing_all. rewrite filter_In, in_seq, negb_true_iff, memb_false, srcp_lt. split.
+  - intros [[_ L] N]. split; [exact L | exact N].
+  - intros [L N]. split; [split; [apply Nat.le_0_l | exact L] | exact N].
+Qed.
+
+Lemma fetch_all_cases U c F T out n T' : fetch_all U c F T = (out, n, T') ->
+  (out <> FOk /\ T' = T) \/
+  (out = FOk /\ T' = T /\ missing_all U (vis_of F T) = []) \/
+  (out = FOk /\ T' = insert U c T (missing_all U (vis_of F T))).
+Proof.
+  unfold fetch_all, transfer. intros H.
+  destruct (missing_all U (vis_of F T)) as [|m M] eqn:EM.
+  - inversion H; subst. right. left. repeat split.
+  - destruct (incompat c).
+    + inversion H; subst. left. split; [discriminate | reflexivity].
+    + inversion H; subst. right. right. split; reflexivity.
+Qed.
+
+Lemma boundary_all_in_vis U vis b : In b (boundary U (missing_all U vis)) -> In b vis.
+Proof.
+  intros H. apply In_boundary in H. destruct H as [_ [S N]].
+  destruct (memb b vis) eqn:E; [apply memb_In; exact E|]. exfalso. apply N.
+  apply In_missing_all. split; [exact S | apply memb_false; exact E].
+Qed.
+
+(* after a successful fetch of everything the target sees every revision the source has, has lost
+   nothing, stays complete (unstacked) resp. keeps the stacking invariant *)
+Theorem fetch_all_complete U c F T n T' : fetch_all U c F T = (FOk, n, T') ->
+  (forall a, srcp U a = true -> In a (vis_of F T')) /\
+  incl (revs T) (revs T') /\ incl (invs T) (invs T') /\ incl (texts T) (texts T') /\
+  fetch_all U c F T' = (FOk, 0, T').
+Proof.
+  intros H.
+  assert (Hall : forall a, srcp U a = true -> In a (vis_of F T')).
+  { intros a Sa.
+    destruct (fetch_all_cases U c F T FOk n T' H) as [[N _]|[[_ [E EM]]|[_ E]]]; [congruence| |]; subst T'.
+    - destruct (memb a (vis_of F T)) eqn:Ea; [apply memb_In; exact Ea|]. exfalso.
+      assert (Hin : In a (missing_all U (vis_of F T))) by (apply In_missing_all; split; [exact Sa | apply memb_false; exact Ea]).
+      rewrite EM in Hin. contradiction.
+    - apply In_vis_insert. destruct (memb a (vis_of F T)) eqn:Ea; [right; apply memb_In; exact Ea|left].
+      apply In_missing_all. split; [exact Sa | apply memb_false; exact Ea]. }
+  split; [exact Hall|].
+  assert (E0 : missing_all U (vis_of F T') = []).
+  { unfold missing_all. apply filter_nil. intros x Hx. apply in_seq in Hx. apply negb_false_iff. apply memb_In.
+    apply Hall. apply srcp_lt. destruct Hx as [_ Hx]. exact Hx. }
+  destruct (fetch_all_cases U c F T FOk n T' H) as [[N _]|[[_ [E _]]|[_ E]]]; [congruence| |]; subst T'.
+  - repeat split; try apply incl_refl. unfold fetch_all, transfer. rewrite E0. reflexivity.
+  - repeat split.
+    + intros x Hx. rewrite revs_insert. apply In_union. right. exact Hx.
+    + intros x Hx. apply In_invs_insert. right. right. exact Hx.
+    + intros x Hx. apply In_texts_insert. right. exact Hx.
+    + unfold fetch_all, transfer. rewrite E0. reflexivity.
+Qed.
+
+Theorem fetch_all_keeps_full U c F T out n T' : wf_univ U = true ->
+  fetch_all U c F T = (out, n, T') -> revs F = [] -> full U T -> full U T'.
+Proof.
+  intros W H EF HF.
+  assert (Ev : vis_of F T = revs T) by (unfold vis_of; rewrite EF; apply app_nil_r).
+  destruct (fetch_all_cases U c F T out n T' H) as [[_ E]|[[_ [E _]]|[_ E]]]; subst T'; try exact HF.
+  apply insert_keeps_full; [exact W| |exact HF]. rewrite Ev. apply boundary_all_in_vis.
+Qed.
+
+Theorem fetch_all_keeps_complete U c F T out n T' : wf_univ U = true ->
+  fetch_all U c F T = (out, n, T') -> ext c = true -> closedb U (vis_of F T) = true ->
+  local_complete U T -> local_complete U T'.
+Proof.
+  intros W H X C HL.
+  destruct (fetch_all_cases U c F T out n T' H) as [[_ E]|[[_ [E _]]|[_ E]]]; subst T'; try exact HL.
+  apply (insert_keeps_complete U c T _ (vis_of F T) W X C); [| |exact HL].
+  - intros m Hm. apply In_missing_all in Hm. tauto.
+  - apply boundary_all_in_vis.
 Qed.
